@@ -157,14 +157,15 @@ def buildPatch1 (pom : Pom) (ps : Patches) (u : Upd) : Option Patches :=
     -- `patch.Name = origDep.Name()`: the patch carries the key as the file spells it
     let direct : DPatch := ⟨od.origin, od.key, u.to, true⟩
     if !containsProperty od.ver then { ps with deps := addPatch ps.deps direct } else
+    let depOrigin : Str :=
+      if hasPrefix sProfile od.origin then cutSuffix od.origin ('@' :: sManagement) else []
     match gen od.ver u.to with
     | .ok assigns =>
-      -- fix f5d17448: every property name must be defined (by name) in some local pom.xml
-      if !(asMap assigns).all (fun a => pom.props.any (fun p => p.name = a.1)) then
+      -- `propertyDefinition` (fixes f5d17448, 95fbdd2e): every property name must have a definition that applies to this
+      -- dependency — a universal one or one in the dependency's own profile (a definition in ANOTHER profile does not count)
+      if !(asMap assigns).all (fun a => pom.props.any (fun p => p.name = a.1 ∧ (p.origin = [] ∨ p.origin = depOrigin))) then
         { ps with deps := addPatch ps.deps direct }
       else
-      let depOrigin : Str :=
-        if hasPrefix sProfile od.origin then cutSuffix od.origin ('@' :: sManagement) else []
       addProps pom.props depOrigin direct (asMap assigns) ps
     | _ => { ps with deps := addPatch ps.deps direct }
 
